@@ -160,7 +160,7 @@ pub fn url_from(r: &mut Rng, rules: &[String]) -> (String, String, String) {
             "https://{}{}{}",
             if r.pct(40) { format!("{}.", TOK[r.below(8)]) } else { String::new() },
             h,
-            rest.replace('^', r.pick(&["/", "?", ":", "*", "!"])).replace('*', r.pick(&["", "x", "/zz/"]))
+            rest.replace('^', r.pick(&["/", "?", ":", "*", "!"])).replace('*', r.pick(&["", "x", "/zz/", "/q", "/img/top", "/a-"]))
         );
         if !u[8..].contains('/') {
             u.push('/');
@@ -176,7 +176,7 @@ pub fn url_from(r: &mut Rng, rules: &[String]) -> (String, String, String) {
     } else if body.starts_with('/') && body.ends_with('/') && body.len() > 1 {
         u = format!("https://{}/{}", host(r), r.pick(&["ads/foo", "adx/foo", "bar", "foo12", "bad.js", "foo"]));
     } else {
-        let b = body.trim_end_matches('|').replace('^', r.pick(&["/", "?", "&", "*", "~"])).replace('*', r.pick(&["", "q", "/zz/"]));
+        let b = body.trim_end_matches('|').replace('^', r.pick(&["/", "?", "&", "*", "~"])).replace('*', r.pick(&["", "q", "/zz/", "/q", "x/top", "-"]));
         u = format!(
             "https://{}/{}{}{}",
             host(r),
@@ -227,6 +227,28 @@ pub fn url_from(r: &mut Rng, rules: &[String]) -> (String, String, String) {
 // Bucket-sharing clusters: rules built to land in the same token bucket (or all in the fallback
 // bucket) with option sets drawn from a tiny pool, so that equal masks, fusion, de-duplication,
 // tie-breaks and per-bucket scans are exercised rather than left to chance.
+
+/// A rule whose pattern may begin or end in the middle of a URL token (`||host*tok/…`, `/…/tok*ext|`),
+/// ballast that makes its other tokens frequent (so that a wrongly admitted partial token would be the
+/// rarest one and become the bucket key), and a URL the rule matches in which that token is extended.
+pub fn partial_token_scenario(r: &mut Rng) -> (Vec<String>, String) {
+    let t = r.pick(&["banner", "adframe", "adimg", "promo", "track"]).to_string();
+    let pre = r.pick(&["", "", "@@"]);
+    let (rule, url) = match r.below(4) {
+        0 => (format!("{}||cdn.test*{}/zone/x", pre, t), format!("https://cdn.test/img/top{}/zone/x.gif", t)),
+        1 => (format!("{}||cdn.test*{}/zone/x$important", pre.replace("@@", ""), t), format!("https://cdn.test/q{}/zone/x", t)),
+        2 => (format!("{}/zone/x/{}*gif|", pre, t), format!("https://cdn.test/zone/x/{}/anim.gif", t).replace(".gif", "gif")),
+        _ => (format!("{}||cdn.test^*{}/zone/", pre, t), format!("https://cdn.test/a/my{}/zone/1", t)),
+    };
+    let mut lines = vec![rule];
+    if pre == "@@" {
+        lines.push("||cdn.test^".to_string());
+    }
+    for i in 0..6 {
+        lines.push(format!("||ballast{}.test/cdn/test/zone/x/gif/{}", i, i));
+    }
+    (lines, url)
+}
 
 pub struct ClusterOpts {
     pub csp: bool,
@@ -315,7 +337,7 @@ fn cluster_impl(r: &mut Rng, o: &ClusterOpts, kind: usize, same_mask: bool) -> V
                 if exc && r.pct(25) {
                     opts.push("csp".to_string());
                 } else {
-                    opts.push(format!("csp={}", r.pick(&["script-src 'none'", "worker-src 'none'", "img-src x", "a", "b"])));
+                    opts.push(format!("csp={}", r.pick(&["script-src 'none'", "worker-src 'none'", "img-src x", "a", "b", "script-src 'sha256-AbC+/='", "script-src 'sha256-AbC+/=' 'sha256-Xyz='", "a=b", "a=", "default-src 'self'; report-uri /r?x=1"])));
                 }
             }
             1 if o.redirect => {
